@@ -19,15 +19,17 @@ META = {
             "the UFO specification's conversion tables (every legacy attribute mapped, no two onto one target, every "
             "code outside the three enumeration tables an error for all integers / strings, weight -1 dropped), "
             "|round x - x| <= 1/2 with ties away from zero, absolute values non-negative, casts saturating, results "
-            "typed for format 3, hint data and feature text moved out of the lib. Every line of the two struct literals, "
+            "typed for format 3, hint data and feature text moved out of the lib, the loaded info satisfies C13's fi_spec and its "
+            "save step succeeds. Every line of the two struct literals, "
             "the three match tables, the struct field types and the lib-data function are re-extracted from the source "
             "on every run and proved equal to the tables. Font::load, validate and save are run on thousands of "
             "generated trees (every attribute alone and in combination with distinct values, codes -5..300 "
             "exhaustively, width names and near misses, numeric classes) and compared field by field with the model.",
     "note": "Trusted: Coq kernel + VM; lib/anchors_c14.py (regex translator); the harness's tree writer and field dump; "
-            "plist/serde (typed readers are modelled and exercised, not proved). 'passes validation' is proved for the "
-            "restriction of validate to attributes a legacy conversion can set; 'can be saved' is checked on the "
-            "implementation only (save + reload of every loaded case), its proof belongs to C13/C01.",
+            "plist/serde (typed readers are modelled and exercised, not proved). 'passes validation' is a theorem about C13's "
+            "validator model fi_validate / fi_spec on the projection of the converted info (C14_result_v3_valid), 'can be saved' "
+            "is proved for the font-info step of save (C14_result_saveable, via C13_save_iff_spec); the rest of a save is "
+            "checked on the implementation (save + reload of every loaded case).",
 }
 COQ_TARGETS = ["Props/C14.vo", "Run/C14.vo"]
 PROPS_FILES = ["C14"]
@@ -42,8 +44,11 @@ TRUSTED = [
 ASSUMPTIONS = [
     "the UFO specification's conversion tables are those of Model/SpecTables.v (written from the specification / its "
     "reference implementation ufoLib; the web page itself is not reachable offline)",
-    "C14_result_v3_valid_partial: validate is modelled for date, selection bits, family class and the six PostScript "
-    "lists only (the attributes a legacy file can set); save-ability is not proved here (oracle only)",
+    "C14_result_v3_valid / C14_result_saveable speak about C13's model of FontInfo::validate and of the font-info step of "
+    "Font::save (Model/FontInfo.v, tied to the code by C13's anchors and correspondence and, for converted infos, by this "
+    "property's correspondence run); the projection keeps date, selection bits, family class and the lengths of the six "
+    "PostScript lists, forgets list member values and all other attributes, and has None for gasp/guidelines/WOFF "
+    "(proved absent from loaded legacy infos); saving the rest of the font is not proved here (oracle only)",
     "typed readers of FontInfoV1/FontInfoV2 (serde + plist) are modelled from their field types and validated by the "
     "correspondence run, not proved",
 ]
@@ -138,7 +143,7 @@ def _pval(t):
 
 KERR = {1: "UnknownFontStyle", 2: "UnknownMsCharSet", 3: "UnknownWidthClass", 4: "IllTyped(model only)",
         5: "InvalidOpenTypeHeadCreatedDate", 6: "DisallowedSelectionBits", 7: "InvalidOs2FamilyClass",
-        8: "InvalidPostscriptListLength", 9: "PostscriptListMustBePairs", 99: "other"}
+        8: "InvalidPostscriptListLength", 9: "PostscriptListMustBePairs", 10: "other rule (model)", 99: "other"}
 
 
 def _kerr(t):
@@ -147,7 +152,7 @@ def _kerr(t):
     name = KERR.get(tag, str(tag))
     if tag in (1, 2):
         return "%s(%d)" % (name, _z(l[1]))
-    if tag in (3, 9, 99):
+    if tag in (3, 9, 10, 99):
         return "%s(%r)" % (name, _bytes(l[1]))
     if tag == 8:
         return "%s(%s, max %d, len %d)" % (name, _bytes(l[1]), _z(l[2]), _z(l[3]))
